@@ -136,6 +136,8 @@ type EventOpts struct {
 	Types        TypeOpts
 	MaxInputs    int
 	AllowIndexed bool
+	// IndexedComposite: indexed inputs may also be structs, arrays, strings or bytes (hash topics).
+	IndexedComposite bool
 	SelProb      int  // percent chance that a leaf is selected
 	NeedSelected bool // at least one selected non-indexed leaf
 }
@@ -157,6 +159,19 @@ func GenEvent(t *rapid.T, o EventOpts) *refmodel.Event {
 	for i := 0; i < n; i++ {
 		if o.AllowIndexed && nIndexed < 3 && rapid.IntRange(0, 3).Draw(t, "indexed") == 0 {
 			var ty *refmodel.Type
+			if o.IndexedComposite && rapid.IntRange(0, 3).Draw(t, "indexedcomposite") == 0 {
+				// legal Solidity: an indexed struct, array, string or bytes input (its topic is a
+				// hash, nothing can be decoded from it, so nothing below it is selected)
+				before := cols
+				ty = c.genType(t, 0, true)
+				cols = before
+				stripColumns(ty)
+				ty.Name = c.name("i")
+				ty.Indexed = true
+				ev.Inputs = append(ev.Inputs, ty)
+				nIndexed++
+				continue
+			}
 			for {
 				ty = elementary(t)
 				if ty.Kind != refmodel.KBytes && ty.Kind != refmodel.KString {
@@ -302,7 +317,23 @@ func GenValue(t *rapid.T, ty *refmodel.Type, o ValueOpts) refmodel.Value {
 func GenEventValues(t *rapid.T, ev *refmodel.Event, o ValueOpts) []refmodel.Value {
 	vals := make([]refmodel.Value, len(ev.Inputs))
 	for i, in := range ev.Inputs {
+		if in.Indexed && !(in.IsLeaf() && in.Kind != refmodel.KBytes && in.Kind != refmodel.KString) {
+			// an indexed struct / array / string / bytes input: the topic holds a hash of the value
+			vals[i] = refmodel.Value{T: in, Word: rapid.SliceOfN(rapid.Byte(), 32, 32).Draw(t, "hashtopic")}
+			continue
+		}
 		vals[i] = GenValue(t, in, o)
 	}
 	return vals
+}
+
+// stripColumns removes every selection below t.
+func stripColumns(ty *refmodel.Type) {
+	ty.Column = ""
+	if ty.Elem != nil {
+		stripColumns(ty.Elem)
+	}
+	for _, f := range ty.Fields {
+		stripColumns(f)
+	}
 }
